@@ -68,7 +68,7 @@ func (sfv *seqFunVars) setKeysItem(f slip.Object, s *slip.Scope, args slip.List,
 			}
 			if num, ok := args[pos+1].(slip.Fixnum); ok {
 				sfv.count = int(num)
-			} else {
+			} else if args[pos+1] != nil { // nil is the same as not provided
 				slip.TypePanic(s, depth, "count", args[pos+1], "fixnum")
 			}
 		case ":from-end":
@@ -124,7 +124,7 @@ func (sfv *seqFunVars) setKeysIf(f slip.Object, s *slip.Scope, args slip.List, d
 			}
 			if num, ok := args[pos+1].(slip.Fixnum); ok {
 				sfv.count = int(num)
-			} else {
+			} else if args[pos+1] != nil { // nil is the same as not provided
 				slip.TypePanic(s, depth, "count", args[pos+1], "fixnum")
 			}
 		case ":from-end":
